@@ -5,7 +5,10 @@ REGISTRY = {}
 def register(obj):
     inst = obj() if isinstance(obj, type) else obj
     from pyvc.loops import LoopContract
-    if isinstance(inst, LoopContract):
+    from pyvc.contract import LoopBodyContract
+    if isinstance(inst, LoopBodyContract):
+        REGISTRY[inst.name] = inst
+    elif isinstance(inst, LoopContract):
         REGISTRY["loop:%s#%d" % (inst.qual, inst.ordinal)] = inst
     else:
         REGISTRY[inst.qual] = inst
@@ -13,7 +16,7 @@ def register(obj):
 
 
 def load_all():
-    from . import exchange, trade, broker, allocation, rebalancing, rebalance, exchange14, spaces, env  # noqa
+    from . import exchange, trade, broker, allocation, rebalancing, rebalance, exchange14, spaces, env, transmitter  # noqa
     REGISTRY["method:DiscretePortfolio.contains"] = spaces.discrete_contains_model
     REGISTRY["method:*.sample"] = spaces.space_sample
     REGISTRY["builtin:defaultdict"] = exchange14.empty_history
